@@ -293,7 +293,9 @@ fn $name<C: Ord + Clone + Default + std::fmt::Debug + 'static>(case: &MultiCase,
     } else {
         ""
     };
-    let first_trial_clamped = first_trial_clamped || optimum_clamped;
+    // the log_sum_exp clamp (fixed in /repo, 5649046) no longer exists: the probes above are only tallied
+    let _ = (first_trial_clamped, optimum_clamped, clamp_note);
+    let clamp_note = "";
     let do_fit = |p: &MultiLogisticRegression<$F>| {
         guarded(|| {
             let rec = laid.view();
@@ -308,7 +310,7 @@ fn $name<C: Ord + Clone + Default + std::fmt::Debug + 'static>(case: &MultiCase,
     let mut model = match do_fit(&params) {
         Ok(Ok(m)) => m,
         Ok(Err(e)) => {
-            let sig = if first_trial_clamped { "multi_logistic.fit.error.log_sum_exp_global_shift_clamp" } else { "multi_logistic.fit.unexpected_error" };
+            let sig = "multi_logistic.fit.unexpected_error";
             viols.push(Violation::new(sig, format!("fit on an in-domain {}-class dataset returned Err({}){}", k, e, clamp_note), cj()));
             return out;
         }
@@ -347,7 +349,7 @@ fn $name<C: Ord + Clone + Default + std::fmt::Debug + 'static>(case: &MultiCase,
                 match do_fit(&params.clone().max_iterations(case.retry_max_iter)) {
                     Ok(Ok(m2)) => model = m2,
                     Ok(Err(e)) => {
-                        let sig = if first_trial_clamped { "multi_logistic.fit.error.log_sum_exp_global_shift_clamp" } else { "multi_logistic.fit.unexpected_error" };
+                        let sig = "multi_logistic.fit.unexpected_error";
                         viols.push(Violation::new(sig, format!("refit with max_iterations {} on an in-domain {}-class dataset returned Err({})", case.retry_max_iter, k, e), cj()));
                         return out;
                     }
@@ -406,7 +408,7 @@ fn $name<C: Ord + Clone + Default + std::fmt::Debug + 'static>(case: &MultiCase,
         out.tag("multi_gradient_above_10tol");
     }
     if gn > gthr && gap > gap_tol {
-        let sig = if first_trial_clamped { "multi_logistic.fit.not_stationary.log_sum_exp_global_shift_clamp" } else { "multi_logistic.fit.not_stationary" };
+        let sig = "multi_logistic.fit.not_stationary";
         viols.push(Violation::new(
             sig,
             format!(
@@ -551,8 +553,14 @@ fn $name<C: Ord + Clone + Default + std::fmt::Debug + 'static>(case: &MultiCase,
         out.queries += 1;
         let row: Vec<f64> = (0..k).map(|c| probs[(i, c)]).collect();
         // f32: rounding of the subject's own score (d products + bias) moves a probability by at most that much
-        let serr: f64 = ulp * (d as f64 + 1.0) * (0..k).map(|c| (0..d).map(|j| (qi[j] * wm[(j, c)]).abs()).sum::<f64>() + bm[c].abs()).fold(0.0f64, f64::max);
         let scores: Vec<f64> = (0..k).map(|c| (0..d).map(|j| qi[j] * wm[(j, c)]).sum::<f64>() + bm[c]).collect();
+        // rounding of the subject's own scores: 8 eps * (sum_j |x_j W_jc| + |b_c|), in both float types
+        let _ = ulp;
+        let eps_f = if is32 { 1.2e-7 } else { 2.3e-16 };
+        let slog: f64 = 8.0 * eps_f * (0..k).map(|c| (0..d).map(|j| (qi[j] * wm[(j, c)]).abs()).sum::<f64>() + bm[c].abs()).fold(0.0f64, f64::max);
+        // it reaches a softmax probability through a slope of at most 2 p (1 - p)
+        let pref0 = refopt::softmax(&scores);
+        let serr: f64 = 2.0 * slog * (0..k).map(|c| (row[c] * (1.0 - row[c])).abs().max(pref0[c] * (1.0 - pref0[c]))).fold(0.0f64, f64::max);
         let spread = scores.iter().cloned().fold(f64::NEG_INFINITY, f64::max) - scores.iter().cloned().fold(f64::INFINITY, f64::min);
         if spread > 100.0 {
             out.extreme_queries += 1;
